@@ -67,8 +67,10 @@ def main() -> int:
     ap.add_argument("--jobs", type=int, default=min(16, os.cpu_count() or 4))
     ap.add_argument("--write", action="store_true")
     ap.add_argument("--only", default=None, help="regex on the experiment name")
+    ap.add_argument("--props", default=None, help="comma-separated properties to run (default all 20); a quick regression after a rule change")
     args = ap.parse_args()
     kinds = [k for k in ("seeded", "benign") if getattr(args, k)] or ["seeded", "benign"]
+    props = args.props.split(",") if args.props else PROPS
     root = tempfile.mkdtemp(prefix="ropt_exp_")
     bad = 0
     try:
@@ -81,7 +83,7 @@ def main() -> int:
             for i in range(0, len(names), 20):
                 chunk = names[i:i + 20]
                 trees = {n: build(kind, n, root) for n in chunk}
-                jobs = [(n, p) for n in chunk if trees[n] for p in PROPS]
+                jobs = [(n, p) for n in chunk if trees[n] for p in props]
                 with ThreadPoolExecutor(args.jobs) as ex:
                     outs = list(ex.map(lambda np_: run_check(trees[np_[0]], np_[1]), jobs))
                 for (n, p), (rc, fired) in zip(jobs, outs):
@@ -94,6 +96,8 @@ def main() -> int:
             for n, res in sorted(summary.items()):
                 if kind == "seeded":
                     own = n.split("_")[0]
+                    if own not in res:
+                        continue
                     if res[own]["exit"] != 1:
                         bad += 1
                         print(f"MISSED seeded/{n}: {own} exit {res[own]['exit']} {res[own]['fired']}")
@@ -105,8 +109,8 @@ def main() -> int:
                         if r["exit"] != 0:
                             bad += 1
                             print(f"ALARM benign/{n}: {p} exit {r['exit']} {r['fired']}")
-            print(f"{kind}: {len(summary)} experiments, {20 * len(summary)} check runs")
-            if args.write:
+            print(f"{kind}: {len(summary)} experiments, {len(props) * len(summary)} check runs")
+            if args.write and not args.props:
                 compact = {n: {p: r for p, r in res.items() if r["exit"] != 0} for n, res in summary.items()}
                 json.dump(compact, open(os.path.join(VERIF, kind, "SUMMARY.json"), "w"), indent=1, sort_keys=True)
     finally:
